@@ -286,7 +286,7 @@ sys.exit(1 if (r is not None and not (isinstance(r, tuple) and r[0] == "known"))
         extra_docs = packages(docs)
         d = os.path.join(VERIF, "replays", "C03")
         os.makedirs(d, exist_ok=True)
-        with open(os.path.join(d, "docs.jsonl"), "w") as f:
+        with open(os.environ.get("VERIF_C03_DOCS") or os.path.join(d, "docs.jsonl"), "w") as f:
             for kind, s in docs:
                 f.write(json.dumps({"kind": kind, "doc": json.loads(s)}) + "\n")
     emit({
